@@ -42,6 +42,7 @@
 
 #include "c16_util.h"
 #include "c16_corpus.h"
+#include "c16_station.h"
 #include "c16_text.h"
 #include "c16_exp.h"
 #include "c16_render.h"
@@ -130,6 +131,58 @@ static void oracle_print(struct vf_rng *r, long ncalls)
 	}
 }
 
+/* ---------------- evidence about the new page kinds ---------------- */
+
+static void count_ttx_kinds(void)
+{
+	int navrow = PG.rows == 25 && META.nav, i, labels = 0;
+	if (META.ctrl & (1u << (7 - 4))) vf_count("pages_with_row0_suppressed", 1);
+	if (META.ctrl & 6) vf_count(PG_boxed ? "pages_newsflash_subtitle_with_boxed_area" : "pages_newsflash_subtitle_nothing_boxed", 1);
+	if (!META.station) {
+		if (navrow && META.flof) vf_count(META.row24 ? "pages_with_flof_row_from_x24" : "pages_with_flof_row_generated", 1);
+		vf_sig("ttx lv=%d c567=%x flof=%d x24=%d", META.lv, META.ctrl & 14, META.flof, META.row24);
+		return;
+	}
+	vf_count("pages_teletext_station", 1);
+	if (ST.feat & SF_INDEX) {
+		vf_count("pages_top_index", 1);
+		vf_sig("station index rows=%d titles=%s", PG.rows, ST.top_titles > 40 ? "many" : "few");
+		return;
+	}
+	if (META.hex) vf_count("pages_hex_number_through_mip", 1);
+	if (st_nmip) vf_count("pages_with_magazine_inventory", 1);
+	if (navrow && META.flof) vf_count(META.row24 ? "pages_with_flof_row_from_x24" : "pages_with_flof_row_generated", 1);
+	else if (navrow && (ST.feat & SF_TOP)) {
+		for (i = 0; i < 3; i++) if (PG.nav_link[i].pgno) labels++;
+		vf_count(labels ? "pages_with_top_row" : "pages_with_top_row_without_labels", 1);
+		vf_count("top_row_labels", labels);
+	}
+	if (ST.obj_invoked) vf_count("pages_invoking_objects", 1);
+	if (ST.obj_checked) vf_count("pages_also_formatted_with_empty_objects", 1);
+	if (ST.obj_changed) {
+		vf_count("pages_changed_by_object", 1);
+		if (ST.types & 2) vf_count("pages_changed_by_object_active_invoked", 1);
+		if (ST.types & 4) vf_count("pages_changed_by_object_adaptive_invoked", 1);
+		if (ST.types & 8) vf_count("pages_changed_by_object_passive_invoked", 1);
+		vf_count(ST.via_mot ? "pages_changed_by_object_linked_by_mot" : "pages_changed_by_object_linked_by_x27", 1);
+		if (ST.default_obj) vf_count("pages_changed_by_default_object", 1);
+		if (ST.gpop) vf_count("pages_changed_by_object_gpop", 1);
+		if (ST.pop) vf_count("pages_changed_by_object_pop", 1);
+		if (ST.nested) vf_count("pages_changed_by_object_invoking_objects", 1);
+		if (ST.l35_links && META.lv == 3) vf_count("pages_changed_by_object_level35_links", 1);
+		if (ST.opage_declared) vf_count("pages_changed_by_object_page_declared_in_mip", 1);
+		if (ST.opage_x26) vf_count("pages_changed_by_object_page_with_x26", 1);
+		vf_count("object_cells", ST.cells);
+		if (ST.cells_sized) vf_count("pages_with_object_cells_double_width_height_size", 1);
+		if (ST.cells_drcs) vf_count("pages_with_object_cells_drcs", 1);
+		if (ST.cells_right) vf_count("pages_with_object_cells_in_columns_36_39", 1);
+		if (ST.cells_bottom) vf_count("pages_with_object_cells_in_rows_23_24", 1);
+		if (ST.cells_row0) vf_count("pages_with_object_cells_in_row_0", 1);
+	}
+	vf_sig("station feat=%x lv=%d obj=%d top=%d flof=%d%d rows=%s", ST.feat & 0x3F, META.lv, ST.obj_changed ? 2 : ST.obj_invoked ? 1 : 0,
+	       labels, META.flof, META.row24, PG.rows == 25 ? "25" : PG.rows == 1 ? "1" : "n");
+}
+
 /* ---------------- case ---------------- */
 
 static int run_case(struct vf_rng *r, long idx)
@@ -139,7 +192,7 @@ static int run_case(struct vf_rng *r, long idx)
 	     p3 = vf_param[3] ? vf_param[3] : 6, p4 = vf_param[4], p5 = vf_param[5], p6 = vf_param[6] ? vf_param[6] : 8;
 
 	cor_new_decoder();
-	ok = vf_chance(r, 3, 4) ? cor_gen_ttx(r) : cor_gen_cc(r);
+	ok = cor_gen_page(r);
 	vf_sample("%s", PG_desc);
 	if (!ok) {
 		vf_fail("harness:fetch", "%s", PG_desc);
@@ -160,6 +213,7 @@ static int run_case(struct vf_rng *r, long idx)
 	if (FEAT.link) vf_count("pages_with_links", 1);
 	if (FEAT.nonascii) vf_count("pages_with_non_ascii_text", 1);
 	if (!PG_is_cc && PG.rows == 25 && (PG.nav_link[0].pgno || PG.nav_link[1].pgno)) vf_count("pages_with_navigation_row", 1);
+	if (!PG_is_cc) count_ttx_kinds();
 	vf_sample("%s -> %dx%d dw=%d dh=%d ds=%d conceal=%d flash=%d gfx=%d drcs=%d transp=%d semi=%d link=%d nonascii=%d", PG_desc, PG.columns, PG.rows,
 		  FEAT.dw, FEAT.dh, FEAT.ds, FEAT.conceal, FEAT.flash, FEAT.gfx, FEAT.drcs, FEAT.transp, FEAT.semi, FEAT.link, FEAT.nonascii);
 
